@@ -317,21 +317,6 @@ theorem completions_settle {s : Sess} {f : Nat} {x : Fut} (hx : s.futs[f]? = som
     rcases f5 with e | e <;> simp [completions, e]
   · simp [completions]
 
-theorem settle_tbl (s : Sess) (f : Nat) (o : Outcome) (k : Kind) : (settle s f o).1.tbl k = s.tbl k := by
-  unfold settle
-  split
-  · rfl
-  · split
-    · cases k <;> rfl
-    · split
-      · rw [(emitCb_fields _ _).1 k]; cases k <;> rfl
-      · cases k <;> rfl
-
-theorem tbl_subs_update (s1 : Sess) (x : List (SubId × List SubRec)) (k : Kind) : Sess.tbl { s1 with subs := x } k = s1.tbl k := by
-  cases k <;> rfl
-theorem tbl_regs_update (s1 : Sess) (x : List (RegId × RegRec)) (k : Kind) : Sess.tbl { s1 with regs := x } k = s1.tbl k := by
-  cases k <;> rfl
-
 /-- `reply_routing`: in any state, a reply `(type, id)` whose kind's table holds a still-open request `r` under `id`
 completes exactly the future of `r` — no other — with that reply's content (for ERROR: the exception built from it),
 removes `r` from its table and leaves the other five tables alone. This holds whatever else is outstanding, so for
@@ -417,5 +402,165 @@ theorem reply_routing (s : Sess) (sid : Nat) (hs : s.sessionId = some sid) (beh 
   | abort => simp [replyOf] at hm
   | challenge => simp [replyOf] at hm
   | other => simp [replyOf] at hm
+
+
+/-- non-vacuity of `reply_routing`: three requests of different kinds outstanding, answered out of order -/
+example : completions (runOuts (init .deferred) [.open_, .pump, .msg (.welcome 1) [], .api (.call 1 [] [] none .ok),
+      .api (.subscribe 5 2 none .ok), .api (.publish 3 [] [] (some { acknowledge := some true }) .ok),
+      .msg (.published 3 9) [], .msg (.error 48 1 4 { args := some [7] }) [], .msg (.subscribed 2 50) []]) =
+    [(2, .value (.publication 9)), (0, .error 4 [7] []), (1, .value (.subscription 50))] := by decide
+
+/-! ## unknown_reply_is_violation -/
+
+/-- the `(kind, id)` a message claims to answer (progressive results included; ERROR by its `request_type`) -/
+def claims : InMsg → Option (Option Kind × ReqId)
+  | .published id _ => some (some .publish, id)
+  | .subscribed id _ => some (some .subscribe, id)
+  | .unsubscribed id => some (some .unsubscribe, id)
+  | .result id _ _ => some (some .call, id)
+  | .registered id _ => some (some .register, id)
+  | .unregistered id _ => if id = 0 then none else some (some .unregister, id)
+  | .error t id _ _ => some (kindOfCode t, id)
+  | _ => none
+
+theorem errorKind_none {s : Sess} {t : Nat} {id : ReqId}
+    (h : ∀ k, kindOfCode t = some k → alookup id (s.tbl k) = none) : errorKind s t id = none := by
+  simp only [errorKind, List.find?_eq_none]
+  intro k _ hk
+  simp only [Bool.and_eq_true, beq_iff_eq] at hk
+  have := h k (hk.1 ▸ kindOfCode_code k)
+  rw [this] at hk; simp at hk
+
+/-- `unknown_reply_is_violation`: a reply whose `(kind, id)` is in no table — unknown id, id of a request of another
+kind, duplicate of an already answered reply, ERROR whose `request_type` is not the kind recorded under the id or is
+no request type at all — raises `ProtocolError` out of `onMessage` and changes *nothing*: no future, no table, no
+handler list. -/
+theorem unknown_reply_is_violation (s : Sess) (sid : Nat) (hs : s.sessionId = some sid) (beh : List HAct) (m : InMsg)
+    (k : Option Kind) (id : ReqId) (hm : claims m = some (k, id))
+    (hnone : ∀ k', k = some k' → alookup id (s.tbl k') = none) :
+    step s (.msg m beh) = (s, [.raise_ .protocolError]) := by
+  simp only [step, onMessage, hs]
+  cases m with
+  | published id' pub =>
+    simp only [claims, Option.some.injEq, Prod.mk.injEq] at hm; obtain ⟨rfl, rfl⟩ := hm
+    simp [onEstablished, popReply, hnone _ rfl]
+  | subscribed id' sub =>
+    simp only [claims, Option.some.injEq, Prod.mk.injEq] at hm; obtain ⟨rfl, rfl⟩ := hm
+    simp [onEstablished, popReply, hnone _ rfl]
+  | unsubscribed id' =>
+    simp only [claims, Option.some.injEq, Prod.mk.injEq] at hm; obtain ⟨rfl, rfl⟩ := hm
+    simp [onEstablished, popReply, hnone _ rfl]
+  | result id' p progress =>
+    simp only [claims, Option.some.injEq, Prod.mk.injEq] at hm; obtain ⟨rfl, rfl⟩ := hm
+    have : alookup id' s.tCall = none := hnone _ rfl
+    simp [onEstablished, this]
+  | registered id' reg =>
+    simp only [claims, Option.some.injEq, Prod.mk.injEq] at hm; obtain ⟨rfl, rfl⟩ := hm
+    simp [onEstablished, popReply, hnone _ rfl]
+  | unregistered id' reg =>
+    simp only [claims] at hm
+    split at hm
+    · simp at hm
+    · next hne =>
+      simp only [Option.some.injEq, Prod.mk.injEq] at hm; obtain ⟨rfl, rfl⟩ := hm
+      simp [onEstablished, hne, popReply, hnone _ rfl]
+  | error t id' uri p =>
+    simp only [claims, Option.some.injEq, Prod.mk.injEq] at hm; obtain ⟨rfl, rfl⟩ := hm
+    simp [onEstablished, errorKind_none hnone]
+  | welcome _ => simp [claims] at hm
+  | goodbye => simp [claims] at hm
+  | event _ _ _ => simp [claims] at hm
+  | invocation _ _ _ => simp [claims] at hm
+  | interrupt _ => simp [claims] at hm
+  | abort => simp [claims] at hm
+  | challenge => simp [claims] at hm
+  | other => simp [claims] at hm
+
+/-- messages that are never legal inside an established session are protocol violations as well -/
+theorem unexpected_message_is_violation (s : Sess) (sid : Nat) (hs : s.sessionId = some sid) (beh : List HAct) :
+    step s (.msg (.welcome 1) beh) = (s, [.raise_ .protocolError]) ∧ step s (.msg .other beh) = (s, [.raise_ .protocolError]) ∧
+    step s (.msg .abort beh) = (s, [.raise_ .protocolError]) ∧ step s (.msg .challenge beh) = (s, [.raise_ .protocolError]) := by
+  simp [step, onMessage, hs, onEstablished]
+
+/-- non-vacuity: RESULT for an id that only a subscribe request holds; ERROR(SUBSCRIBE) for a call's id; duplicate -/
+example : runOuts (init .sync) [.open_, .msg (.welcome 1) [], .api (.subscribe 5 2 none .ok), .api (.call 1 [] [] none .ok),
+      .msg (.result 1 {} false) [], .msg (.error 32 2 4 {}) [], .msg (.error 99 2 4 {}) [], .msg (.published 7 1) []] =
+    [.send { typ := .hello }, .send { typ := .subscribe, req := 1, uri := 2 }, .ret 0, .send { typ := .call, req := 2, uri := 1 }, .ret 1,
+     .raise_ .protocolError, .raise_ .protocolError, .raise_ .protocolError, .raise_ .protocolError] := by decide
+
+/-! ## progress_only_own_handler -/
+
+/-- what the Spec says a progressive RESULT does: it calls the `on_progress` of the call recorded under its id
+(if that call has one) — `CallResult(*args, **kwargs)` when `details` was requested, `(*args, **kwargs)` otherwise,
+absent args/kwargs read as empty — and nothing else -/
+def progressCalls (r : Req) (p : Payload) : List SOut :=
+  match r.onProgress with
+  | none => []
+  | some h => [.progress h (if r.details then .result (p.args.getD []) (p.kwargs.getD []) else .plain (p.args.getD []) (p.kwargs.getD []))]
+
+/-- `progress_only_own_handler`, full statement: a progressive RESULT for a pending call makes exactly the progress
+calls above (when the handler itself does nothing), completes nothing and leaves the state alone. -/
+def ProgressOnlyOwnHandler : Prop :=
+  ∀ (s : Sess) (sid : Nat) (id : ReqId) (p : Payload) (r : Req),
+    s.sessionId = some sid → alookup id s.tCall = some r →
+    step s (.msg (.result id p true) []) = (s, progressCalls r p)
+
+/-- it fails: `CallOptions(on_progress=f, details=True)` and a progressive RESULT without kwargs (F10) … -/
+theorem progress_only_own_handler_fails_F10 : ¬ ProgressOnlyOwnHandler := by
+  intro h
+  have := h (runState (init .sync) [.open_, .msg (.welcome 1) [],
+      .api (.call 1 [] [] (some { onProgress := some 7, details := true }) .ok)]) 1 1 { args := some [1] }
+    { fut := 0, hasOpts := true, uri := 1, onProgress := some 7, details := true } (by decide) (by decide)
+  revert this
+  decide
+
+/-- … and for a call made without options at all (`call_request.options` is `None`: AttributeError). -/
+theorem progress_only_own_handler_fails_no_options : ¬ ProgressOnlyOwnHandler := by
+  intro h
+  have := h (runState (init .sync) [.open_, .msg (.welcome 1) [], .api (.call 1 [] [] none .ok)]) 1 1 {}
+    { fut := 0, uri := 1 } (by decide) (by decide)
+  revert this
+  decide
+
+/-- `progress_only_own_handler_partial`: outside those two shapes — the call was made with an options object, and if
+it asked for `details` the progressive RESULT carries both args and kwargs — a progressive RESULT calls the
+`on_progress` of *its own* call only (the handler recorded under that id), with the payload as the Spec says, then runs
+that handler's behaviour; it completes no future and touches no table. -/
+theorem progress_only_own_handler_partial (s : Sess) (sid : Nat) (hs : s.sessionId = some sid) (id : ReqId) (p : Payload)
+    (r : Req) (hr : alookup id s.tCall = some r) (beh : List HAct)
+    (hopts : r.hasOpts = true) (hshape : r.details = true → p.args.isSome = true ∧ p.kwargs.isSome = true) :
+    step s (.msg (.result id p true) beh) =
+      match r.onProgress with
+      | none => (s, [])
+      | some _ => ((runAct s none (beh.headD {})).1, progressCalls r p ++ (runAct s none (beh.headD {})).2) := by
+  simp only [step, onMessage, hs, onEstablished, hr, hopts, progressCalls]
+  cases hop : r.onProgress with
+  | none => simp
+  | some h =>
+    by_cases hd : r.details = true
+    · obtain ⟨ha, hk⟩ := hshape hd
+      obtain ⟨a, ha'⟩ := Option.isSome_iff_exists.mp ha
+      obtain ⟨k, hk'⟩ := Option.isSome_iff_exists.mp hk
+      simp [hd, ha', hk']
+    · simp [hd]
+
+/-- a progressive RESULT whose handler does nothing leaves the whole state unchanged — in particular it does not
+complete the call, which stays pending for its final RESULT -/
+theorem progress_does_not_complete (s : Sess) (sid : Nat) (hs : s.sessionId = some sid) (id : ReqId) (p : Payload)
+    (r : Req) (hr : alookup id s.tCall = some r)
+    (hopts : r.hasOpts = true) (hshape : r.details = true → p.args.isSome = true ∧ p.kwargs.isSome = true) :
+    step s (.msg (.result id p true) []) = (s, progressCalls r p) := by
+  rw [progress_only_own_handler_partial s sid hs id p r hr [] hopts hshape]
+  cases h : r.onProgress <;> simp [progressCalls, runAct, runCalls, h]
+
+/-- non-vacuity: two calls with different progress handlers; each progressive RESULT reaches its own handler -/
+example : runOuts (init .sync) [.open_, .msg (.welcome 1) [],
+      .api (.call 1 [] [] (some { onProgress := some 7 }) .ok), .api (.call 2 [] [] (some { onProgress := some 8, details := true }) .ok),
+      .msg (.result 2 { args := some [5], kwargs := some [] } true) [], .msg (.result 1 { args := some [6] } true) [{ raises := true }],
+      .msg (.result 1 {} false) []] =
+    [.send { typ := .hello }, .send { typ := .call, req := 1, opts := [(.receiveProgress, .b true)], uri := 1 }, .ret 0,
+     .send { typ := .call, req := 2, opts := [(.receiveProgress, .b true)], uri := 2 }, .ret 1,
+     .progress 8 (.result [5] []), .progress 7 (.plain [6] []), .userError,
+     .complete 0 (.value .none_), .callback 0 (.value .none_)] := by decide
 
 end Abverif.Session
